@@ -16,6 +16,14 @@ CLAIMED = {
              'returns: z3 finds no differing input on any feasible path of the two MIR bodies. from_variant\'s routing of '
              'rename_all_fields / variant rename_all is decided for all attribute combinations.',
         ref='DESIGN.md 4 (C09)'),
+    'C08': dict(
+        text='For every pair (importing file, imported file) of the form <base><symbolic bytes>.ts with the stated number of symbolic '
+             'bytes over {/ . a t s} (component structure, `.`/`..`, empty components, dotted names and names ending in ts emerge from '
+             'the bytes), each listed base spelling and working directory, with import-esm off and on: import_path returns Ok exactly '
+             'when neither path climbs above the root, never panics, and its specifier starts with ./ or ../, ends in .js iff esm, and '
+             'resolved (specifier + ".ts") against the importing file\'s directory denotes exactly the imported file. Decided by z3 on '
+             'every feasible path of the real MIR of import_path/diff_paths/absolute.',
+        ref='DESIGN.md 4 (C08)'),
 }
 
 NOT_APPLICABLE = {
